@@ -20,7 +20,7 @@ theorem isSpace_eq_ws (c : UInt8) : isSpace c = ws c := by
 
 theorem isSpace_fun : isSpace = ws := funext isSpace_eq_ws
 
-theorem cstrOf_eq (s : Bytes) : cstrOf s = cstr s := rfl
+theorem cstrOf_eq (s : Bytes) : bufCstrOf s = cstr s := rfl
 
 namespace Buf
 
@@ -183,6 +183,24 @@ theorem duplicate_view {b : Buf} {c : Bytes} (h : View b c) :
     ∃ d, b.duplicate = .ok d ∧ Rep d c := by
   obtain ⟨d, hd, hr⟩ := rep_create (some c) b.len
   exact ⟨d, by simp [duplicate, getCstr_view h, hd], by simpa using hr⟩
+
+theorem insertSelf_spec {b : Buf} {c : Bytes} (h : Rep b c) (pos : Nat) :
+    ∃ b', b.insertSelf pos = .ok (b', (insertAt c pos c).2) ∧ Rep b' (insertAt c pos c).1 := by
+  obtain ⟨d, hd, hr⟩ := duplicate_view h.view
+  obtain ⟨b', hb', hr'⟩ := insertData_spec h pos c
+  exact ⟨b', by simp only [insertSelf, h.dyn, Bool.false_eq_true, if_false, hd, contents_view hr.view]; exact hb', hr'⟩
+
+theorem insertSelf_static {b : Buf} (hs : b.isStatic = true) (pos : Nat) :
+    b.insertSelf pos = .ok (b, false) := by simp [insertSelf, hs]
+
+theorem appendSelf_spec {b : Buf} {c : Bytes} (h : Rep b c) :
+    ∃ b', b.appendSelf = .ok (b', true) ∧ Rep b' (c ++ c) := by
+  obtain ⟨d, hd, hr⟩ := duplicate_view h.view
+  obtain ⟨b', hb', hr'⟩ := appendData_spec h (some c)
+  exact ⟨b', by simp only [appendSelf, h.dyn, Bool.false_eq_true, if_false, hd, getCstr_view hr.view]; exact hb', hr'⟩
+
+theorem appendSelf_static {b : Buf} (hs : b.isStatic = true) : b.appendSelf = .ok (b, false) := by
+  simp [appendSelf, hs]
 
 /-! ### compare -/
 
